@@ -4,6 +4,7 @@ interpreter and turn both into comparable observations."""
 from . import ast
 from . import refsem
 from .core import CaseTimeout
+from .probes import HQ
 from .probes import PullBudget
 from .probes import World
 
@@ -34,7 +35,7 @@ def observe_impl(nodes, ns, syntax='dtml', style=None, faults=None,
         obs = {'kind': 'ok', 'value': norm_value(r)}
     except (CaseTimeout, PullBudget):
         raise
-    except Exception as exc:
+    except (Exception, HQ) as exc:
         obs = {'kind': 'exc', 'value': norm_exc(exc)}
     obs['log'] = world.log
     obs['source'] = src
@@ -53,7 +54,7 @@ def observe_ref(nodes, ns, faults=None, call=None):
         obs = {'kind': 'ok', 'value': norm_value(r)}
     except CaseTimeout:
         raise
-    except Exception as exc:
+    except (Exception, HQ) as exc:
         obs = {'kind': 'exc', 'value': norm_exc(exc)}
     obs['log'] = world.log
     obs['unspec'] = interp.unspec
